@@ -40,10 +40,21 @@ def phi(ts):
     return ("phi", tuple(out))
 
 
+def desugar_returns(block):
+    """`if c { ..; return a; } rest` == `if c { ..; a } else { rest }` on the top-level block of a function / closure body."""
+    from .util_terms import desugar_early_returns
+
+    return desugar_early_returns(block)
+
+
 class Ev:
-    def __init__(self):
+    def __init__(self, helpers=None):
         self.closures = []
         self.returns = []
+        # private free functions of the analysed module ({name: fn node}): a call `helper(a, b)` is evaluated as the helper's body
+        # with the parameters bound to the argument terms (an extracted helper reads like the code it was extracted from)
+        self.helpers = helpers or {}
+        self._depth = 0
 
     # ------------------------------------------------------------------ patterns
     def bind(self, pat, t, env, declared=None):
@@ -123,6 +134,18 @@ class Ev:
         if k == "call":
             args = tuple(self.eval(a, env) for a in n["args"])
             f = n["f"]
+            if f["k"] == "path" and len(f["segs"]) == 1 and f["segs"][0] in self.helpers and f["segs"][0] not in env and self._depth < 3:
+                h = self.helpers[f["segs"][0]]
+                ps = [p_ for p_ in (h.get("params") or (h.get("sig") or {}).get("params") or []) if not p_.get("self")]
+                if len(ps) == len(args) and h.get("body") is not None:
+                    e2 = {}
+                    for p_, a_ in zip(ps, args):
+                        self.bind(p_["pat"], a_, e2)
+                    self._depth += 1
+                    try:
+                        return self.block(h["body"], e2)
+                    finally:
+                        self._depth -= 1
             if f["k"] == "path" and not (len(f["segs"]) == 1 and f["segs"][0] in env):
                 return ("call", f["p"], args)
             return ("callx", self.eval(f, env), args)
